@@ -42,12 +42,14 @@ func (dec *Decoder) ReadBytes() []byte {
 }
 
 func (dec *Decoder) readUint8Slice(et reflect.Type) []byte {
-	count := dec.ReadInt()
-	slice := make([]byte, count)
-	dec.AddReference(slice)
-	for i := 0; i < count; i++ {
-		dec.decodeUint8(et, dec.NextByte(), &slice[i])
+	count := dec.readCount()
+	slice := make([]byte, 0, dec.prealloc(count))
+	for i := 0; i < count && dec.Error == nil; i++ {
+		var b byte
+		dec.decodeUint8(et, dec.NextByte(), &b)
+		slice = append(slice, b)
 	}
+	dec.AddReference(slice)
 	dec.Skip()
 	return slice
 }
